@@ -2298,6 +2298,7 @@ func drawResizeCase(t *rapid.T, i int) resizeCase {
 }
 
 const quiet = 200 * time.Millisecond
+const pace = 3 * time.Millisecond
 
 func resizeKeys(rc resizeCase) (disc, stall string) {
 	return "C19:resize-disconnects:" + impl(rc.Proto), "C19:resize-stalls:" + impl(rc.Proto)
@@ -2386,7 +2387,8 @@ func runResizeVT(r reporter, test string, rc resizeCase) {
 		if role(rc.Proto) != "answerer" {
 			return true
 		}
-		if inject(tag, 3*time.Second) == vt.InjNotTaken {
+		seq++
+		if p.Handoff(wireIn(rc.Proto, seq, []byte(tag)), 3*time.Second) == vt.InjNotTaken {
 			return false
 		}
 		return e.recvUntil([]byte(tag), 600)
@@ -2415,8 +2417,7 @@ func runResizeVT(r reporter, test string, rc resizeCase) {
 				}
 				if !e.raw && role(rc.Proto) == "answerer" && i < rc.Initial+2 {
 					// a cooked replier answers once per request
-					go inject(fmt.Sprintf("again-%d", i), time.Second)
-					if !e.recvUntil([]byte(fmt.Sprintf("again-%d", i)), 50) {
+					if !prime(fmt.Sprintf("again-%d", i)) {
 						break
 					}
 				}
@@ -2440,6 +2441,13 @@ func runResizeVT(r reporter, test string, rc resizeCase) {
 	}
 	p.SetMode(vt.ModeAccept, nil)
 	if probeAfterResize(rc) {
+		if full && rc.Option == oWQ {
+			// let the released backlog leave: fan-out senders drop new messages while their queue is full
+			for last, i := -1, 0; i < 20 && last != p.SentCount(); i++ {
+				last = p.SentCount()
+				time.Sleep(10 * time.Millisecond)
+			}
+		}
 		e.setDeadlines(2*time.Second, 2*time.Second)
 		okProbe := false
 		why := ""
@@ -2479,7 +2487,7 @@ func runResizeVT(r reporter, test string, rc resizeCase) {
 					why = fmt.Sprintf("Send failed: %v", err)
 					continue
 				}
-				deadline := time.Now().Add(time.Second)
+				deadline := time.Now().Add(400 * time.Millisecond)
 				for !okProbe && time.Now().Before(deadline) {
 					for _, m := range p.SentLog() {
 						if bytes.HasSuffix(m.Data, []byte(tag)) {
@@ -2575,6 +2583,7 @@ func runResizeInproc(r reporter, test string, rc resizeCase) {
 		case inbound && (ro == "peer" || ro == "sink" || ro == "answerer"):
 			for i := 0; i < k; i++ {
 				_ = P.send([]byte(fmt.Sprintf("fill-%d", i)), 2*time.Second)
+				time.Sleep(pace) // fan-out senders drop instead of queueing
 			}
 		case inbound && ro == "asker":
 			// replies pile up at S: S asks, P answers, S does not receive
@@ -2588,6 +2597,7 @@ func runResizeInproc(r reporter, test string, rc resizeCase) {
 		case !inbound && (ro == "peer" || ro == "src" || ro == "asker"):
 			for i := 0; i < k; i++ {
 				_ = S.send([]byte(fmt.Sprintf("fill-%d", i)), 2*time.Second)
+				time.Sleep(pace)
 			}
 		case !inbound && ro == "answerer":
 			for i := 0; i < k; i++ {
